@@ -25,15 +25,16 @@ def violates(run, case, impl, model):
     return rel(im) != rel(mm) or descs(im) != descs(mm) or iv != mv
 
 
-LEVEL_TEXT = ("Other (proof of the primitives + differential run): proved for the machine of rpc.Conn -- releaseExport (Release, "
-              "Finish.releaseResultCaps and, after the repair of F19, Return.releaseParamCaps) keeps wireRefs e = sent e - "
-              "released e with the entry present exactly while the count is positive, and refuses over-release without any "
-              "change (export_count_partial); importClient.Shutdown of the current generation sends exactly one Release "
-              "carrying the references received and removes the entry, other generations send nothing, addImport counts one "
-              "per descriptor and a re-created client never shares a generation (import_release_partial, F20 refuted on the "
-              "pre-fix machine); Close succeeds from any state and empties all tables (close_releases_all_partial). NOT proved: "
-              "the history-level equation for sendCap's new entries, the client reference counters and the exactly-once "
-              "Shutdown of capabilities; these are covered by the differential run only (Release messages, descriptor ids, "
-              "exports / wire refs / imports after every event, Shutdown count of every instrumented capability at the end). "
-              "Found and repaired: F19, F20, F22.")
+LEVEL_TEXT = ("Other (history-level proof of export_count + proofs of the import / close primitives + differential run): "
+              "proved for ALL histories of the machine of rpc.Conn -- while the connection is up, for every export id: entry "
+              "present -> wireRefs = sent - released > 0, entry absent -> sent = released, and free ids name empty slots "
+              "(C07_export_count; sent is bumped exactly where a senderHosted descriptor is written, released by the count of "
+              "every successful releaseExport: Release, Finish.releaseResultCaps, Return.releaseParamCaps after F19; "
+              "over-release is refused without change). importClient.Shutdown of the current generation sends exactly one "
+              "Release carrying the references received and removes the entry, other generations send nothing, addImport counts "
+              "one per descriptor, a re-created client never shares a generation (F20 refuted on the pre-fix machine); Close "
+              "succeeds from any state and empties all tables. NOT proved at history level: import_release (one Release per "
+              "generation when the last local reference goes) and close_releases_all with the client reference counters; these "
+              "are covered by the differential run (Release messages, descriptor ids, exports / wire refs / imports after every "
+              "event, Shutdown count of every instrumented capability at the end). Found and repaired: F19, F20, F22.")
 LEVEL_NOTE = "See coq/Props/Properties_C07.v for the full statements and what is missing at each theorem."
